@@ -520,6 +520,27 @@ def c07_eq(ctx, case):
     body_batch_or_single(ctx, case)
 
 
+# ---- grid and rate changed together (same frequency step, another axis) after the axis has been read ---------
+def enum_df(tier):
+    for cls in CLASSES:
+        for d0 in ("r12", "c12"):
+            for first in (["freq"], ["read"], ["plot"]):
+                for n in (32, 21, None, "nextpow2"):
+                    for fs in (2.0, 2.5, 0.5):
+                        a, b = ["set", "NFFT", n], ["set", "sampling", fs]
+                        for pair in ((a, b), (b, a)):
+                            for sides in (None, "twosided", "centerdc"):
+                                hist = [first] + ([["set", "sides", sides], ["freq"]] if sides else []) + [list(pair[0]), list(pair[1])]
+                                yield {"cls": cls, "d0": d0, "hist": hist}
+
+
+@sub("C07.df", enum=enum_df, exhaustive=True, shards_quick=4, shards_thorough=4,
+     doc="the axis is read (or the estimate read / plotted), then NFFT and sampling are both assigned -- in either order, also "
+         "with the same ratio (16, 1.0 -> 32, 2.0: same df, another axis) -- in each layout: psd, df and frequencies() equal a fresh object's")
+def c07_df(ctx, case):
+    body_batch_or_single(ctx, case)
+
+
 # ---- assignments that make the estimate uncomputable (exception path of the getter) ---------
 POOL["r3"] = np.array([1.0, -2.0, 0.5])      # too short for most model orders / tapers
 
